@@ -350,6 +350,12 @@ def run(ctx):
                 ctx.log("replay rc=%d %s %s" % (rc, o[:300], err[-300:]))
                 if rc != 0 or " other " in o or "DIFF" in o:
                     ctx.violation("replayed: " + r.get("what", "")[:200], r, signature=r.get("signature"))
+            elif l.startswith("xcrop"):
+                rc, o, err = finding_run(ctx, exes["simd"], l)
+                ctx.log("replay rc=%d %s" % (rc, o[:300]))
+                m = re.match(r"xcrop cap=(\d+) sizefn=(\w+) transform=(\w+) total=(\d+) norealloc=(\w+)", o)
+                if rc != 0 or not m or m.group(2) != m.group(3) or (m.group(2) == "accept" and (int(m.group(4)) > int(m.group(1)) or m.group(5) != "ok")):
+                    ctx.violation("replayed: " + r.get("what", "")[:200], r, signature=r.get("signature"))
             elif l.startswith("xicc") or l.startswith("xmk"):
                 rc, o, err = finding_run(ctx, exes["simd"], l)
                 ctx.log("replay rc=%d %s" % (rc, o[:300]))
@@ -380,14 +386,21 @@ def run(ctx):
               [(0, 8, 8, GRAY, 3, 90, 0, 0, 0, 128 | 64 | 2), (0, 8, 8, GRAY, 3, 90, 3, 500, 0, 128)] + \
               [(0, 8, 8, GRAY, 3, 90, pat, 0, 0, 128 | 64 | 2 | 256) for pat in (0, 2, 3, 7)] + \
               [(0, 16, 8, GRAY, 3, 90, 3, 0, 0, 128 | 64 | 2 | 256)]     # 12-bit source: |coef| up to 16383, optimised tables
-    specs = specs + hostile
+    # operations WITH restart markers in every entropy mode (sequential, optimised, progressive, arithmetic, lossless, transform)
+    restart_specs = [(2, 40, 24, RGB, 0, 90, 21, 0, -1, 16), (5, 48, 32, RGB, 2, 85, 22, 0, -1, 16 | 2), (2, 32, 32, GRAY, 3, 95, 23, 0, -1, 512),
+                     (2, 40, 24, RGB, 0, 90, 24, 0, -1, 16 | 1), (2, 40, 24, RGB, 0, 90, 25, 0, -1, 16 | 4), (2, 32, 24, RGB, 0, 90, 26, 0, -1, 8 | 512),
+                     (2, 40, 32, RGB, 1, 90, 27, 0, 5, 16), (2, 48, 16, GRAY, 3, 100, 28, 300, -1, 16)]
+    specs = specs + hostile + restart_specs
     rc, out, err = run_lines(exes["simd"], ["size " + spec_str(s) for s in specs])
     sized = []
     sos_of = {}
+    rst_of = {}
     for s, o in zip(specs, out):
-        m = re.match(r"size (\d+) dec=(\w+)(?: sos=(\d+))?", o)
+        m = re.match(r"size (\d+) dec=(\w+)(?: sos=(\d+))?(?: rst=([\d,]*))?", o)
         if m and m.group(3):
             sos_of[s] = int(m.group(3))
+        if m and m.group(4):
+            rst_of[s] = [int(x) for x in m.group(4).split(",") if x]
         if m and int(m.group(1)) > 0:
             if m.group(2) != "ok":
                 ctx.violation("library output does not decode: " + spec_str(s), {"lines": ["size " + spec_str(s)], "impl": o},
@@ -440,6 +453,33 @@ def run(ctx):
                 cap = sos + k * blen + leave
                 h_lines.append("hist tjx ; A %d 0 ; J %d %d %s ; F" % (cap, (leave + k) & 1, n, spec_str(hs)))
     nh = run_stream(ctx, "H", h_lines, drv, exes, 2)
+    # ---- R: outputs WITH restart markers: the returned bytes must be the reference JPEG at every initial capacity; the
+    #         capacities are derived from the reference: every c with c*2^k - 1 or c*2^k (+-1) on a marker offset, so that
+    #         a marker starts on / just before / just after a growth boundary; thorough adds the full sweep 1..size+2
+    r_lines = []
+    for rs in restart_specs:
+        if rs not in sizes or rs not in rst_of:
+            continue
+        n = sizes[rs]
+        caps = set()
+        for mo in rst_of[rs] + [n - 2]:
+            for target in (mo - 1, mo, mo + 1, mo + 2):
+                t = target
+                while t >= 1:
+                    caps.add(t)
+                    if t % 2:
+                        break
+                    t //= 2
+        caps = sorted(c for c in caps if 1 <= c <= n + 2)
+        if ctx.thorough():
+            caps = list(range(1, n + 3)) if n <= 6000 else caps
+        elif len(caps) > 90:
+            caps = rng.shuffle(caps)[:90]
+        for c in caps:
+            r_lines.append("hist tjx ; A %d 0 ; J 1 %d %s ; F" % (c, n, spec_str(rs)))
+        r_lines.append("hist tjx ; J 1 %d %s ; F" % (n, spec_str(rs)))
+    nr = run_stream(ctx, "R", r_lines, drv, exes, 3)
+    ctx.cov["restart_marker_capacities"] = len(r_lines)
     # ---- S: jpeg_mem_dest re-armed on the same object with the SAME pointer value after the caller shrank the block
     #         in place (free + smaller allocation at the same address: canary / poisoned tail behind it): the granted
     #         size must be honoured.  Outside the w_ok theorems (address recycling) but inside C13_ijg_safe_any_allocator; model compared.
@@ -457,7 +497,7 @@ def run(ctx):
     nd = run_stream(ctx, "D", d_lines, drv, exes, 3, ncorpus=ncd)
     ni = run_stream(ctx, "I", i_lines, drv, exes, 3, ncorpus=nci)
     nt = run_stream(ctx, "T", t_lines, drv, exes, 4, ncorpus=nct)
-    ctx.cov["traces_validated_against_impl"] = nd + ni + nt + nh + ns if drv else 0
+    ctx.cov["traces_validated_against_impl"] = nd + ni + nt + nh + ns + nr if drv else 0
 
     # ---- K: the longest codes a table can have (lengths 1..16, code 1111111111111110 for the top category) on
     #         coefficients of maximal magnitude at 8- and 12-bit precision through jpeg_write_coefficients: the block
@@ -550,6 +590,51 @@ def run(ctx):
             ctx.log("transform/ICC model and implementation disagree: %s\n  model: %s\n  impl : %s" % (l, ml[i], o))
             ctx.broken_tie("correspondence:xicc", "ICC term/payload differ on %s: model %s impl %s" % (l, ml[i][:60], o[:80]))
     ctx.cov["xicc_term_below_payload"] = under
+
+    # ---- cropped transforms: every op x crop with w/h in {0 = to the edge, explicit, too large} x non-square high-entropy
+    #      images x subsamplings: tj3TransformBufSize accepts iff tj3Transform accepts, and the bound covers the output
+    MCU = {0: (8, 8), 1: (16, 8), 2: (16, 16), 3: (8, 8), 4: (8, 16)}
+    xc = [l for l in corpus if l.startswith("xcrop ")]
+    dims = [(240, 16), (16, 240), (48, 80), (80, 48), (33, 17), (64, 64)]
+    for op in range(8):
+        for (w, h) in dims:
+            for _ in range(ctx.n(2, 12)):
+                ss = rng.choice([0, 1, 2, 3, 4])
+                swap = op in (3, 4, 5, 7)
+                dss = {1: 4, 4: 1}.get(ss, ss) if swap else ss
+                mw, mh = MCU[dss]
+                dw, dh = (h, w) if swap else (w, h)
+                rx = mw * rng.below(max(1, dw // mw)) if rng.chance(2, 3) else 0
+                ry = mh * rng.below(max(1, dh // mh)) if rng.chance(2, 3) else 0
+                rw = rng.choice([0, 0, max(1, dw - rx), max(1, (dw - rx) // 2), dw - rx + rng.range(1, 40), 1])
+                rh = rng.choice([0, 0, max(1, dh - ry), max(1, (dh - ry) // 2), dh - ry + rng.range(1, 40), 1])
+                xc.append("xcrop %d %d %d %d %d %d %d %d %d %d" % (op, w, h, ss, rx, ry, rw, rh, rng.choice([75, 90]), rng.below(1000)))
+    rc, out, err = run_lines(exes["simd"], xc)
+    if rc != 0:
+        ctx.violation("crash in the cropped-transform stream rc=%d: %s" % (rc, err[-300:]), {"lines": xc[max(0, len(out) - 2):][:1]}, signature="xcrop:crash")
+    agree = {"accept": 0, "reject": 0}
+    for l, o in zip(xc, out):
+        m = re.match(r"xcrop cap=(\d+) sizefn=(\w+) transform=(\w+) total=(\d+) norealloc=(\w+)", o)
+        if not m:
+            ctx.broken_tie("harness:xcrop", "unexpected output %s for %s" % (o[:80], l))
+            continue
+        cap, sf, tf, total, nr_ = int(m.group(1)), m.group(2), m.group(3), int(m.group(4)), m.group(5)
+        ctx.count("xcrop", 1, ("xcrop", l.split()[1], sf, tf, nr_, l.split()[7] == "0", l.split()[8] == "0"))
+        bad = None
+        f = [int(v) for v in l.split()[1:9]]
+        dw_, dh_ = (f[2], f[1]) if f[0] in (3, 4, 5, 7) else (f[1], f[2])
+        exceeds = (f[6] != 0 and f[4] + f[6] > dw_) or (f[7] != 0 and f[5] + f[7] > dh_)
+        if sf != tf and exceeds and sf == "reject":
+            agree["lenient"] = agree.get("lenient", 0) + 1     # tj3Transform clamps an explicit extent beyond the edge; the size function refuses it
+        elif sf != tf:
+            bad = "tj3TransformBufSize %ss a cropped transform that tj3Transform %ss" % (sf, tf)
+        elif sf == "accept" and (total > cap or nr_ != "ok"):
+            bad = "tj3TransformBufSize() = %d does not cover the %d-byte output (NOREALLOC: %s)" % (cap, total, nr_)
+        else:
+            agree[sf] += 1
+        if bad:
+            ctx.violation("%s: %s -> %s" % (bad, l, o), {"lines": [l], "impl": o}, signature="xform-crop-size:" + ("disagree" if sf != tf else "undersized"))
+    ctx.cov["xcrop_agreements"] = agree
 
     # ---- transform of a source that carries markers: ICC profile in k chunks (any chunking is legal; every chunk costs
     #      18 bytes that tj3TransformBufSize does not count), COM / APP1 markers copied by the default TJPARAM_SAVEMARKERS
